@@ -300,7 +300,7 @@ fn vq_c06_evicted_set_next_plain() {
     evicted_next_step(e, bits);
 }
 
-//@ harness props=C06,C16 tier=quick level=bounded timeout=300 bound="previous right edge < 128 with at most 1 spurious bit (a bit standing for a packet number below 0, which `!window & mask` produces) to skip; the full 129-iteration skip loop (unwind 130) did not finish in 25 min, two spurious bits not in 20 min"
+//@ harness props=C06,C16 tier=thorough level=bounded timeout=1000 bound="previous right edge < 128 with at most 1 spurious bit (a bit standing for a packet number below 0, which `!window & mask` produces) to skip; the full 129-iteration skip loop (unwind 130) did not finish in 25 min, two spurious bits not in 20 min"
 //@ fn EvictedSet::next
 #[kani::proof]
 #[kani::unwind(3)]
